@@ -75,7 +75,17 @@ def nd_pattern(it, a, ty, callee):
     if not n.conc:
         raise Inconclusive('pattern(len) needs a concrete length')
     from .values import Seq
-    return Seq([Int(i % 251, 8) for i in range(n.v)], 'vec')
+    pat = _PATTERNS.get(n.v)
+    if pat is None:
+        pat = _PATTERNS[n.v] = tuple(Int(i % 251, 8) for i in range(n.v))     # Int values are immutable: shared between paths
+    return Seq(pat, 'vec')
+
+
+_PATTERNS = {}
+
+
+def _unused():
+    pass
 
 
 def nd_cid(it, a, ty, callee):
